@@ -6,7 +6,7 @@
 use thiserror::Error;
 
 use crate::crypto::merkle::SliceRoot;
-use crate::crypto::signature::PublicKey;
+use crate::crypto::signature::{PublicKey, Signature};
 use crate::shredder::{Shred, ShredPayload, SliceCommitment};
 
 /// Different errors returned from [`ValidatedShred::try_new`].
@@ -96,6 +96,21 @@ impl ValidatedShred {
     #[must_use]
     pub fn commitment(&self) -> SliceCommitment {
         SliceCommitment::new(&self.shred.payload().header, &self.slice_root)
+    }
+
+    /// The leader's signature over this shred's [`SliceCommitment`], as carried by the shred.
+    ///
+    /// It has only been checked if the shred was validated without a cached commitment.
+    #[must_use]
+    pub(crate) fn slice_sig(&self) -> Signature {
+        self.shred.slice_sig
+    }
+
+    /// Replaces the leader's signature carried by this shred.
+    ///
+    /// Only for a signature that has been verified for the same [`SliceCommitment`].
+    pub(crate) fn set_slice_sig(&mut self, slice_sig: Signature) {
+        self.shred.slice_sig = slice_sig;
     }
 
     /// Returns the cached Merkle root of the slice this shred belongs to.
